@@ -495,6 +495,15 @@ class C09(Prop):
                     res.distribution["string-block-model:" + M[fb][:1]] += 1
                     if M[fb] != M.get(fs):
                         res.model_disagreements.append(dict(key="c09:block-decoder-model-vs-scalar-model", case=case, detail=f"{fb} {M[fb][:80]} {fs} {str(M.get(fs))[:80]}"))
+            # the in-place decoder through the hook: against its block-level model on the padded copy (correspondence), and
+            # against the specification's reading of that copy (oracle: decoded bytes, end, nothing changed outside the literal)
+            for fi, fm, fsp in (("ip", "m.ip", "spec.ip"), ("ipl", "m.ipl", "spec.ipl")):
+                if fi in I and fm in M:
+                    res.distribution["inplace-model:" + M[fm][:1]] += 1
+                    if I[fi] != M[fm]:
+                        res.model_disagreements.append(dict(key="c09:inplace-decoder-vs-model", case=case, detail=f"impl {fi}={I[fi][:120]} model {fm}={M[fm][:120]}"))
+                    if I[fi] == "PANIC" or (fsp in M and I[fi] != M[fsp]):
+                        res.oracle_failures.append(dict(key=f"C09|{fi}|in-place-decoder-differs-from-specification", case=case, detail=f"impl {fi}={I[fi][:120]} spec {fsp}={str(M.get(fsp))[:120]}"))
             # model self-consistency (the theorem decode_correct, observed)
             mv = M["m.strict"]
             mview = ":".join(mv.split(":")[:3]) if mv.startswith("S:") else "R"
